@@ -104,6 +104,8 @@ def register(PROPS):
     PROPS["C16"] = {
         "gens": [{"id": "C16", "quick": 30000, "thorough": 800000, "thorough_seeds": 16}],
         "compare": cmp_c16,
+        "facts": {"const:headerLastEventID": "Last-Event-Id", "const:headerContentType": "Content-Type",
+                  "const:headerContentTypeValue": "text/event-stream", "const:DefaultTopic": ""},
         "nontrivial": lambda c, g: bool(re.search(r"[WF]\d", g)),
         "shrink_candidates": shrink_c16,
         "rule": "SESS: random Send/Flush sequences (0-6 calls) of messages built through the public API (ID/Type/Retry/AppendData/"
